@@ -11,6 +11,10 @@ def gen(rng, i, single):
     depth = rng.choice([1, 2, 2, 3, 4])
     kinds = [rng.choice(kinds_all) for _ in range(depth)]
     layers = [dict(c01.KINDS[k]) for k in kinds]
+    if rng.random() < 0.3:
+        # a retry policy that raises (from should_retry or from sleep_time): the future must still end
+        layers.insert(rng.randrange(len(layers) + 1),
+                      {"t": "retry", "max": 3, "sleep": 100, "policy": rng.choice(["raise_should", "raise_sleep"])})
     n = 1 if single else rng.choice([2, 3, 4])
     subs = []
     for j in range(n):
